@@ -256,5 +256,6 @@ def run_property(modname, tier, seed, replay=None, budget_s=None):
     if vac:
         for p in vac:
             print(f"HARNESS-ERROR vacuity: {p}")
-        return 2
+        # a violation that was found stays a violation (exit 1) even if part of the exploration turned out vacuous
+        return 1 if n_new else 2
     return 1 if n_new else 0
